@@ -341,6 +341,38 @@ theorem loop_spec (vals : List α) (d : α) (fuel : Nat) (idx : List Nat) (a : N
     intro _ _ hsep
     exact Sep_mono _ _ _ hsep (by simp; omega)
 
+/-- Fuel adequacy: once `2·len + 2 ≤ 2·fuel + add_index`, extra fuel changes nothing — the
+`while` loop of the source (no fuel) and the model's fuelled loop compute the same vector. -/
+theorem loop_fuel (vals : List α) (fuel k : Nat) (idx : List Nat) (a : Nat)
+    (hI : Inv vals.length idx a) (hf : 2 * idx.length + 2 ≤ 2 * fuel + a) (hle : a ≤ idx.length + 1) :
+    mappingLoop vals (fuel + k) idx a = mappingLoop vals fuel idx a := by
+  fun_induction mappingLoop vals fuel idx a with
+  | case1 idx a => omega
+  | case2 fuel idx a halt hnone =>
+    rw [show fuel + 1 + k = (fuel + k) + 1 by omega, mappingLoop]
+    simp only [halt, if_true, hnone]
+  | case3 fuel idx a halt add hadd r hr idx' ih =>
+    have hidx' : idx' = stepL idx r a := by
+      simp only [idx', swapIdx_eq_swapL]; rfl
+    obtain ⟨d⟩ : Nonempty α := ⟨add⟩
+    obtain ⟨hr1, hrlt, _, _⟩ := step_facts vals d idx a r add hI halt hadd hr
+    have hI' : Inv vals.length idx' a := by rw [hidx']; exact Inv_step _ _ _ _ hI hrlt halt hr1
+    have hlen' : idx'.length = idx.length - 2 := by rw [hidx', length_stepL _ _ _ hrlt]
+    have hev := hI.even
+    have hod := hI.odd
+    rw [show fuel + 1 + k = (fuel + k) + 1 by omega, mappingLoop]
+    simp only [halt, if_true, hadd, hr]
+    exact ih hI' (by omega) (by omega)
+  | case4 fuel idx a halt add hadd hr ih =>
+    have hev := hI.even
+    have hod := hI.odd
+    rw [show fuel + 1 + k = (fuel + k) + 1 by omega, mappingLoop]
+    simp only [halt, if_true, hadd, hr]
+    exact ih (Inv_advance _ _ _ hI) (by omega) (by omega)
+  | case5 fuel idx a hge =>
+    rw [show fuel + 1 + k = (fuel + k) + 1 by omega, mappingLoop]
+    simp only [hge, if_false]
+
 /-- The loop facts instantiated at the initial state of `get_simplified_mapping`. -/
 theorem simplifiedMapping_facts (vals : List α) (d : α) (h : vals.length % 2 = 1) :
     (∃ a', Inv vals.length (simplifiedMapping vals) a') ∧
